@@ -139,19 +139,26 @@ class Scn:
 
     def __init__(self, desc: dict) -> None:
         self.desc = desc
+        # in-memory broker: threads of one process share the broker object, a scheduling point at every source line
+        self.points = (["pynenc.broker.mem_broker"], "line") if desc.get("backend") == env.MEM else None
 
     def execute(self, choices: list[int], expect: Any) -> sched.Execution:
         d = self.desc
         prog = PROGRAMS[d["prog"]]
+        backend = d.get("backend", env.SQLITE)
         env.reset_world()
-        db = env.reuse_db("c08s")
-        apps = [env.make_app(env.SQLITE, app_id="c08", db=db) for _ in range(len(prog) + 1)]
+        if backend == env.MEM:
+            one = env.make_app(env.MEM, app_id="c08")
+            apps = [one] * (len(prog) + 1)
+        else:
+            db = env.reuse_db("c08s")
+            apps = [env.make_app(env.SQLITE, app_id="c08", db=db) for _ in range(len(prog) + 1)]
         for x in QUEUES[d["queue"]]:
             apps[-1].broker.route_invocation(x)
         log: list = []
 
         def actor(j: int) -> Any:
-            sysj = BrokerSys(env.SQLITE)
+            sysj = BrokerSys(backend)
             sysj.app = apps[j]
             sysj.b = apps[j].broker
 
@@ -165,7 +172,7 @@ class Scn:
         s = sched.Scheduler(choices, expect, max_points=3000)
         ex = s.run([(f"a{j}", actor(j)) for j in range(len(prog))])
         ex.oplog = log
-        fin = BrokerSys(env.SQLITE)
+        fin = BrokerSys(backend)
         fin.app = apps[-1]
         fin.b = apps[-1].broker
         ex.final = fin.dump()
@@ -178,6 +185,8 @@ class Scn:
     def check(self, ex: sched.Execution, p: Partial) -> None:
         d = self.desc
         base = dict(prog=d["prog"], queue=d["queue"])
+        if d.get("backend") == env.MEM:
+            base["backend"] = env.MEM
         if ex.outcome != "done":
             p.violation({"clause": f"no-progress:{ex.outcome}", **base}, {"log": ex.oplog}, {})
             return
@@ -254,15 +263,17 @@ def run(ctx: Ctx) -> None:
             three = len(acts) == 3
             bound = (2 if three else 3) if ctx.thorough else (1 if three else 2)
             ds.append(dict(prog=prog, queue=q, bound=bound))
+            # the same programs on the in-memory broker (threads sharing one broker object)
+            ds.append(dict(prog=prog, queue=q, bound=bound, backend=env.MEM))
     if getattr(ctx, "only", None):
         ds = [d for d in ds if ctx.only in e1.desc_key(d)]
     e1.explore_all(ctx, MOD, ds, lambda d: d["bound"])
     ctx.rule = (f"histories: BFS to depth {depth} over route/batch/retrieve/count/purge with ids {{a,b}} on both brokers vs a "
                 "deque (result, count read-out and stored order compared after every operation); schedules: every "
-                "schedule with <= bound deviations of 2-3 SQLite actors at SQL-statement granularity, each checked for "
+                "schedule with <= bound deviations of 2-3 actors (SQLite: one app object each, SQL-statement points; memory: one shared broker, source-line points), each checked for "
                 "linearizability against the deque by brute force over the orders of the overlapping calls")
     ctx.assume("julianday('now') ordering column is real (non-decreasing) time; ties are broken by rowid")
-    ctx.assume("the in-memory broker is explored sequentially only (the property quantifies schedules over the SQLite broker)")
+    ctx.assume("in-memory broker schedules (threads sharing one broker object, a point at every line of mem_broker) go beyond the quantifier text, which names the SQLite broker only; same programs, same oracle")
 
 
 def replay(payload: dict) -> bool:
